@@ -132,8 +132,7 @@ Section AttInv.
     destruct (attach_inner_spec (fun x => detached s x = true) fuel s a s1 HK HT HI (fun x Hx => Hx) Eq)
       as [D [E [R [K1 [K2 [K3 K4]]]]]].
     split; [|split; [|split; [|split]]].
-    - eapply sinv_att; try eassumption. intros d Hd. apply K1 in Hd. apply (reach_le _ _ _ HK) in Hd.
-      unfold live in *. lia.
+    - eapply sinv_att; try eassumption. intros d Hd. apply K1 in Hd. eapply reach_live; eassumption.
     - exact (ar_pf _ _ _ _ R).
     - eapply att_attached_new; eassumption.
     - intros x Hx. destruct (att_attached_back _ _ _ _ _ R Hx) as [Hx'|Hx']; [left; exact Hx'|].
